@@ -386,6 +386,41 @@ fn late_waker_after_drop() {
     h2.join().unwrap();
 }
 
+/// The future passed to future_sync panics in the awaiting task: the queue must end up refusing further work (and nothing
+/// may be freed twice or touched after the fact on the way), whoever happens to be running the queue at that moment.
+fn future_sync_panics() {
+    use std::panic::{catch_unwind, AssertUnwindSafe};
+    let d = Arc::new(Desync::new(Payload::new()));
+    // keep the queue busy so that the slot is reached through different runners in different schedules
+    d.desync(|p| p.touch(1));
+    let d2 = d.clone();
+    let waiter = thread::spawn(move || {
+        let r = catch_unwind(AssertUnwindSafe(|| d2.sync(|p| p.touch(2))));
+        let _ = r;
+    });
+    let r = catch_unwind(AssertUnwindSafe(|| {
+        executor::block_on(d.future_sync(|p| {
+            async move {
+                p.touch(3);
+                if p.items.len() > 0 {
+                    panic!("deliberate panic inside a future_sync future");
+                }
+            }
+            .boxed()
+        }))
+    }));
+    assert!(r.is_err());
+    // every later scheduling attempt is refused loudly
+    let later = catch_unwind(AssertUnwindSafe(|| d.desync(|p| p.touch(4))));
+    assert!(later.is_err());
+    let later = catch_unwind(AssertUnwindSafe(|| d.sync(|p| p.touch(5))));
+    assert!(later.is_err());
+    waiter.join().ok();
+    // the owner goes away while unwinding would: the panicked object must not be waited for
+    let gone = catch_unwind(AssertUnwindSafe(move || drop(d)));
+    let _ = gone;
+}
+
 fn main() {
     let prog = std::env::args().nth(1).unwrap_or_default();
     // a small pool keeps the thread count (and Miri's run time) down without changing the code paths
@@ -403,6 +438,7 @@ fn main() {
         "sync_while_parked_in_drain" => sync_while_parked_in_drain(),
         "drop_self_waking" => drop_self_waking(),
         "late_waker_after_drop" => late_waker_after_drop(),
+        "future_sync_panics" => future_sync_panics(),
         other => {
             eprintln!("unknown program {:?}", other);
             std::process::exit(3);
